@@ -7,7 +7,7 @@ CONSTANTS
   Segs = {1, 2}
   QCap = 1
   RingCap = 8
-  MaxExpire = 0
+  MaxExpire = 2
 SPECIFICATION GenSpec
 INVARIANTS TagIsPresented NoForeignInput DownOnlyToSameID OneAcceptPerSession NoTokenNoConn SetIsSanitised RemoteAddrRight
 CHECK_DEADLOCK FALSE
